@@ -295,6 +295,23 @@ func c17Amplifiers(format string) []c17Seed {
 			// dynamic wrappers nested
 			out = append(out, c17Seed{append([]byte(strings.Repeat("\x92\xc4\x09\"dynamic\"", depth)), 0xc0), nil, fmt.Sprintf("nest-dynamic-%d", depth)})
 		}
+		// refinement payloads of unknown values: length bounds (equal, so that the value's length is
+		// "known"), alone, with not-null, nested in an array, and number bounds with huge exponents
+		for _, n := range []uint64{1025, 1 << 16, 1 << 24, 1<<31 - 1, 1 << 40, 1<<63 - 1} {
+			enc := []byte{0xcf, byte(n >> 56), byte(n >> 48), byte(n >> 40), byte(n >> 32), byte(n >> 24), byte(n >> 16), byte(n >> 8), byte(n)}
+			ext := func(body []byte) []byte { return append([]byte{0xc7, byte(len(body)), 0x0c}, body...) }
+			both := ext(append(append(append([]byte{0x83, 0x01, 0xc2, 0x05}, enc...), 0x06), enc...))
+			onlyLens := ext(append(append(append([]byte{0x82, 0x05}, enc...), 0x06), enc...))
+			lower := ext(append([]byte{0x82, 0x01, 0xc2, 0x05}, enc...))
+			for _, tn := range []struct {
+				b    []byte
+				name string
+			}{{both, "notnull+equal-length-bounds"}, {onlyLens, "equal-length-bounds"}, {lower, "length-lower-bound"}} {
+				own := []*TS{tList(tsStr), tSet(tsNum), tMap(tsStr), tList(tList(tsStr))}
+				out = append(out, c17Seed{tn.b, own, fmt.Sprintf("refinement-%s-%d", tn.name, n)})
+				out = append(out, c17Seed{append([]byte{0x91}, tn.b...), own, fmt.Sprintf("nested-refinement-%s-%d", tn.name, n)})
+			}
+		}
 		out = append(out, c17Seed{append([]byte{0xdb, 0, 1, 0, 0}, []byte(strings.Repeat("a", 65536))...), nil, "long-string"})
 		out = append(out, c17Seed{[]byte{0xcb, 0x7f, 0xf8, 0, 0, 0, 0, 0, 1}, nil, "nan"}, c17Seed{[]byte{0xca, 0x7f, 0xc0, 0, 0}, nil, "nan32"}, c17Seed{[]byte{0x91, 0xcb, 0xff, 0xf8, 0, 0, 0, 0, 0}, nil, "nan-in-array"})
 		out = append(out, c17Seed{[]byte{0x90}, nil, "empty-array"}, c17Seed{[]byte{0x80}, nil, "empty-map"}, c17Seed{[]byte{0xc7, 0x00, 0x0c}, nil, "empty-ext"})
@@ -445,7 +462,7 @@ func runC17(c *Ctx) {
 		// amplifiers, unmutated (one unit each: a crash names the input)
 		for _, s := range c17Amplifiers(d.format) {
 			s := s
-			c.Unit(func(u *U) { runInputs(u, s.b, nil, "amplifier:"+s.name) })
+			c.Unit(func(u *U) { runInputs(u, s.b, s.own, "amplifier:"+s.name) })
 		}
 		// seeds and their single mutations
 		seeds := c17Seeds(d.format, c.Thorough)
